@@ -18,7 +18,15 @@ RULE = ("enumerated: for each chosen zone (quick: the 25 odd zones + seed-rotate
         "binary operators (six comparisons, hash equality, subtraction) on pairs: same zone across the transition / both folds, the same instant rendered in another "
         "zone, UTC and fixed offsets, far-apart values, naive/aware mixes, in five operand modes (pendulum-pendulum, pendulum-native and native-pendulum with the same "
         "tzinfo object or with the stdlib tzinfo); astimezone to pendulum and stdlib zones; replace; constructors; time()/timetz() incl. fold and tzinfo identity on named zones, fixed offsets and naive values; Dates over all month shapes x leap/common/century "
-        "years; Times incl. tzinfo; the generated override table against the real MRO. non-trivial = distinct (fn, args).")
+        "years; Times incl. tzinfo; the generated override table against the real MRO. Stream family dt-foreign-* (fn dt_foreign): operand pairs in which a DateTime (built by the "
+        "constructor, obtained by astimezone(<object>) or by fromisoformat) or a native datetime CARRIES A FOREIGN tzinfo object - datetime.timezone.utc, datetime.timezone(offset) with "
+        "and without a name, zoneinfo.ZoneInfo(key) (cached and no_cache), a key-less ZoneInfo.from_file object, dateutil tzfile/tzoffset/tzutc, a pytz per-offset tzinfo, two user "
+        "tzinfo subclasses (constant offset / tz-database table without key/name/zone attribute) - against a partner in a pendulum zone (pendulum value or its native), the same foreign "
+        "object, the same kind as another object, another foreign kind, a naive value; the same instant +-1us, near and unrelated walls incl. the zones' gaps/overlaps; every binary "
+        "operation in BOTH orders (six comparisons, hash equality, subtraction, x.astimezone(y.tzinfo)); oracle = the same operations on native twins with the same fields and the very "
+        "same tzinfo objects (inside the staged interpreter) AND on stdlib-only operands rebuilt by the oracle (dateutil/pytz replaced by their zoneinfo/datetime.timezone equivalents "
+        "where these exist), instant order for aware pairs; model: the dt_binary entry of Model/DropIn.v (tzinfo identity + table; instance() of a native operand) wherever the "
+        "kind has a table model (not key-less ZoneInfo, not pytz, not dateutil outside 1972..2036 / on skipped walls: oracle only). non-trivial = distinct (fn, args).")
 EXHAUSTIVE = {"quick": False, "thorough": True}
 TRUSTED = ["CPython's attribute lookup: a name that no pendulum class of the MRO binds is answered by the native C slot on the same fields "
            "(Gen/Classes.v is computed from the ast; the real type(x).__mro__ lookup is compared with it on every run, stream mro-table)",
@@ -183,6 +191,238 @@ def shares_tzinfo(a):
     return s1 == s2 and MODES[mode] in ("pp", "pn_a", "np_a")
 
 
+# ----------------------------------------------------------------------------- operands carrying FOREIGN tzinfo kinds (stream family dt-foreign-*)
+# An operand is [carrier, kind, param, inst, W, fold]:
+#   carrier  "p"  pendulum.DateTime(*fields, tzinfo=<object>, fold)            (the plain constructor)
+#            "pa" <pendulum UTC value of the same instant>.astimezone(<object>)   (how ordinary code obtains such a value)
+#            "pf" pendulum.DateTime.fromisoformat(<native isoformat>)           (datetime.timezone kinds only; the tzinfo object is made by fromisoformat)
+#            "n"  datetime.datetime(*fields, tzinfo=<object>, fold)             (a native operand)
+#   kind     "naive" | "pz" pendulum zone (param = name | offset) | "tzutc" datetime.timezone.utc | "tz" datetime.timezone(offset) |
+#            "tzn" datetime.timezone(offset, name) | "zi" zoneinfo.ZoneInfo(key) | "zif" key-less ZoneInfo.from_file | "du" dateutil.tz.gettz(key) |
+#            "duo" dateutil.tz.tzoffset(None, offset) | "duu" dateutil.tz.tzutc() | "user" UserFixed(offset, name) | "usert" UserTable(key) |
+#            "pytz" pytz.timezone(key).localize(<wall>, is_dst=<the offset of fold>).tzinfo
+#   inst     two operands of one case carry the SAME tzinfo object iff (kind, param, inst) agree (singletons/caches: always)
+F_CARRIERS = ("p", "pa", "pf", "n")
+F_FIXED_KINDS = ("tzutc", "tz", "tzn", "duo", "duu", "user")
+F_NAMED_KINDS = ("zi", "zif", "du", "usert", "pytz")
+F_PA_KINDS = ("tzutc", "tz", "tzn", "user")          # astimezone() targets whose fromutc is CPython's own (datetime.timezone / tzinfo.fromutc)
+F_PY_FROMUTC = ("du", "duo", "duu", "pytz")           # tzinfo classes whose fromutc is written in Python with `dt + delta` / dt.replace(...)
+F_KEYLESS = ("tzutc", "tz", "tzn", "zif", "du", "duo", "duu", "user", "usert")       # no key / name / zone attribute
+
+
+class UserFixed(_dt.tzinfo):
+    """A user tzinfo subclass with a constant offset (no key / name / zone attribute)."""
+
+    def __init__(self, off, label):
+        self._o = _dt.timedelta(seconds=off)
+        self._l = label
+
+    def utcoffset(self, dt):
+        return self._o
+
+    def dst(self, dt):
+        return _dt.timedelta(0)
+
+    def tzname(self, dt):
+        return self._l
+
+
+class UserTable(_dt.tzinfo):
+    """A user tzinfo subclass answering from a tz database table (it hides a ZoneInfo; no key / name / zone attribute)."""
+
+    def __init__(self, key):
+        self._z = zoneinfo.ZoneInfo.no_cache(key)
+
+    def _as(self, dt):
+        return _dt.datetime(dt.year, dt.month, dt.day, dt.hour, dt.minute, dt.second, dt.microsecond, tzinfo=self._z, fold=dt.fold)
+
+    def utcoffset(self, dt):
+        return self._z.utcoffset(None) if dt is None else self._as(dt).utcoffset()
+
+    def dst(self, dt):
+        return None if dt is None else self._as(dt).dst()
+
+    def tzname(self, dt):
+        return "usert" if dt is None else self._as(dt).tzname()
+
+    def fromutc(self, dt):
+        r = self._z.fromutc(self._as(dt))
+        return type(dt)(r.year, r.month, r.day, r.hour, r.minute, r.second, r.microsecond, tzinfo=self, fold=r.fold)
+
+
+def _tzfile_path(key):
+    import os
+    for d in zoneinfo.TZPATH:
+        p = os.path.join(d, key)
+        if os.path.isfile(p):
+            return p
+    return None
+
+
+def f_spec(kind, param):
+    """The zone spec (tz database name | fixed offset in seconds | None) whose table the tzinfo kind presents."""
+    if kind == "naive":
+        return None
+    if kind in ("tzutc", "duu"):
+        return 0
+    if kind in ("tz", "duo"):
+        return param
+    if kind in ("tzn", "user"):
+        return param[0]
+    return param
+
+
+def _f_key(op):
+    carrier, kind, param, inst, W, f = op
+    if kind in ("pz", "tzutc", "duu", "duo"):
+        inst = 0                                         # one object per name / offset (pendulum's and dateutil's caches, singletons)
+    k = (kind, repr(param), inst)
+    if kind == "tz" and param == 0:
+        k = ("tzutc", "None", 0)                       # datetime.timezone(timedelta(0)) IS the timezone.utc singleton
+    if carrier == "pf" and k[0] != "tzutc":
+        k = ("pf", repr(param), W, f)                  # fromisoformat makes a datetime.timezone object of its own
+    if kind == "pytz":
+        k = (kind, param, T.off_s(T.native(W, f, zoneinfo.ZoneInfo(param))))     # pytz: one tzinfo object per (zone, offset)
+    return k
+
+
+def f_tzobj(op, memo, side):
+    """The tzinfo object of an operand.  side "impl": inside the staged interpreter; "ref": the stdlib-only equivalent for the oracle
+    (None where there is none)."""
+    carrier, kind, param, inst, W, f = op
+    if kind == "naive":
+        return None
+    k = _f_key(op)
+    if k in memo:
+        return memo[k]
+    td = _dt.timedelta
+    if kind == "pz":
+        if side == "impl":
+            o = T.pzone(param)
+        else:                                            # an object of its own (pendulum's zone objects are never the stdlib caches' objects)
+            o = zoneinfo.ZoneInfo.no_cache(param) if isinstance(param, str) else _dt.timezone(td(seconds=param), "pz")
+    elif kind == "tzutc":
+        o = _dt.timezone.utc
+    elif kind == "tz":
+        o = _dt.timezone(td(seconds=param))
+    elif kind == "tzn":
+        o = _dt.timezone(td(seconds=param[0]), param[1])
+    elif kind == "zi":
+        o = zoneinfo.ZoneInfo(param) if inst == 0 else zoneinfo.ZoneInfo.no_cache(param)
+    elif kind == "zif":
+        with open(_tzfile_path(param), "rb") as fh:
+            o = zoneinfo.ZoneInfo.from_file(fh)
+    elif kind == "user":
+        o = UserFixed(param[0], param[1])
+    elif kind == "usert":
+        o = UserTable(param)
+    elif side == "ref":
+        if kind == "du":
+            o = zoneinfo.ZoneInfo.no_cache(param)
+        elif kind == "duo":
+            o = _dt.timezone(td(seconds=param), "duo")
+        elif kind == "duu":
+            o = _dt.timezone(td(0), "UTC")
+        else:                                            # pytz: one object per offset; the offset of (W, fold) in the zone
+            o = _dt.timezone(T.native(W, f, zoneinfo.ZoneInfo(param)).utcoffset(), "pytz")
+    else:
+        if kind == "du":
+            import dateutil.tz
+            o = dateutil.tz.gettz(param) if inst == 0 else dateutil.tz.gettz.nocache(param)
+        elif kind == "duo":
+            import dateutil.tz
+            o = dateutil.tz.tzoffset(None, param)
+        elif kind == "duu":
+            import dateutil.tz
+            o = dateutil.tz.tzutc()
+        else:
+            import pytz
+            z = pytz.timezone(param)
+            want = T.native(W, f, zoneinfo.ZoneInfo(param)).utcoffset()
+            o = None
+            for is_dst in (False, True):
+                try:
+                    cand = z.localize(T.native(W, 0, None), is_dst=is_dst).tzinfo
+                except Exception:  # noqa
+                    continue
+                if getattr(cand, "_utcoffset", _dt.timedelta(0)) == want:
+                    o = cand
+            if o is None:
+                raise LookupError("pytz has no tzinfo with the wanted offset")
+    memo[k] = o
+    return o
+
+
+def f_ref_ok(op):
+    """Does the stdlib-only reference object answer as the interpreter-side object does for this operand?  dateutil's tzfile ignores the
+    POSIX footer (years after 2037) and reads a skipped wall time differently from zoneinfo: there the in-interpreter native twin is the only oracle."""
+    carrier, kind, param, inst, W, f = op
+    if kind == "du":
+        y = T.fields_of(W)[0]
+        return 1972 <= y <= 2036 and len(T.solutions(zoneinfo.ZoneInfo(param), W // T.MEG)) >= 1
+    # a pytz tzinfo is one offset of its zone; its fromutc() answers with ANOTHER object of the zone: no stdlib equivalent for astimezone targets
+    return kind != "pytz"
+
+
+def _f_astz(x, y):
+    if x.tzinfo is None or y.tzinfo is None:
+        return ["-"]
+    try:
+        r = x.astimezone(y.tzinfo)
+    except Exception as e:  # noqa
+        return ["E", type(e).__name__]
+    return [_tname(r), T.wall_of(r), r.fold, T.off_s(r), 1 if r.tzinfo is y.tzinfo else 0]
+
+
+def f_obs(x, y):
+    """Every binary operation of the property on the ordered pair, both orders."""
+    return [_ops(x, y), _sub(x, y), _ops(y, x), _sub(y, x), _f_astz(x, y), _f_astz(y, x)]
+
+
+def _f_off2(n):
+    """utcoffset of the wall time under fold 0 and fold 1"""
+    if n.tzinfo is None:
+        return [None, None]
+    return [T.off_s(n.replace(fold=0)), T.off_s(n.replace(fold=1))]
+
+
+def f_build(pendulum, op, memo):
+    """(operand, its native twin with the same fields and the same tzinfo object, the tzinfo object asked for)"""
+    carrier, kind, param, inst, W, f = op
+    tz = f_tzobj(op, memo, "impl")
+    n = T.native(W, f, tz)
+    y, mo, d, h, mi, s, us = T.fields_of(W)
+    if carrier == "n":
+        return n, n, tz
+    if carrier == "p":
+        x = pendulum.DateTime(y, mo, d, h, mi, s, us, tzinfo=tz, fold=f)
+    elif carrier == "pa":
+        u = n.astimezone(_dt.timezone.utc)
+        x = pendulum.DateTime(u.year, u.month, u.day, u.hour, u.minute, u.second, u.microsecond, tzinfo=pendulum.UTC).astimezone(tz)
+    else:
+        x = pendulum.DateTime.fromisoformat(n.isoformat())
+    twin = _dt.datetime(x.year, x.month, x.day, x.hour, x.minute, x.second, x.microsecond, tzinfo=x.tzinfo, fold=x.fold)
+    return x, twin, tz
+
+
+def f_impl(pendulum, a):
+    memo = {}
+    (x1, n1, t1), (x2, n2, t2) = f_build(pendulum, a[0], memo), f_build(pendulum, a[1], memo)
+    info = [[_tname(x), T.wall_of(x), x.fold, 1 if x.tzinfo is t else 0] + _f_off2(n) for x, n, t in ((x1, n1, t1), (x2, n2, t2))]
+    return [0, f_obs(x1, x2), f_obs(n1, n2), info, 1 if x1.tzinfo is x2.tzinfo else 0]
+
+
+def f_reference(a):
+    """The same observations on native operands built with stdlib-only tzinfo objects (None: no stdlib equivalent in this region)."""
+    if not (f_ref_ok(a[0]) and f_ref_ok(a[1])):
+        return None
+    memo = {}
+    ns = []
+    for op in a:
+        ns.append(T.native(op[4], op[5], f_tzobj(op, memo, "ref")))
+    return f_obs(ns[0], ns[1]), [_f_off2(n) for n in ns], ns[0].tzinfo is ns[1].tzinfo
+
+
 # ----------------------------------------------------------------------------- cases
 def _zones_for(tier, rnd):
     if tier == "thorough":
@@ -210,6 +450,125 @@ def _instant_of(spec, W, f):
 def _render(spec, U):
     w, f, o = T.ref_render(T.ref_zone(spec), U)
     return w, f
+
+
+F_KINDS = [("tzutc", None), ("tz", 0), ("tz", 19800), ("tz", -12600), ("tz", 3600), ("tz", 86340), ("tzn", [-10800, "X"]), ("tzn", [0, "Z"]), ("tzn", [3600, "CET"]),
+           ("zi", "Europe/Paris"), ("zi", "America/New_York"), ("zi", "UTC"), ("zi", "Australia/Lord_Howe"), ("zif", "Europe/Paris"), ("zif", "America/New_York"),
+           ("du", "Europe/Paris"), ("du", "America/New_York"), ("duo", 19800), ("duo", 0), ("duo", -3600), ("duu", None),
+           ("user", [3600, "U1"]), ("user", [0, "UTC"]), ("user", [-16200, "U2"]), ("usert", "Europe/Paris"), ("usert", "America/St_Johns"),
+           ("pytz", "Europe/Paris"), ("pytz", "America/New_York"), ("pytz", "UTC")]
+F_PARTNERS = ["UTC", "Europe/Paris", "America/New_York", "Australia/Lord_Howe", "Asia/Kathmandu", 0, 3600, -12600, 19800]
+def _w(*a):
+    return T.wall_of(_dt.datetime(*a))
+
+
+F_WALLS = [_w(2013, 10, 27, 2, 30),                  # repeated in Europe/Paris
+           _w(2013, 3, 31, 2, 30),                   # skipped in Europe/Paris
+           _w(2013, 3, 31, 3, 30, 0, 123456),
+           _w(1970, 1, 1),
+           _w(2021, 6, 15, 12),
+           _w(2021, 11, 7, 1, 0, 0, 1),              # repeated in America/New_York
+           _w(2021, 3, 14, 2, 30),                   # skipped in America/New_York
+           _w(2000, 2, 29, 13, 14, 15, 16)]
+F_LO, F_HI = _w(1972, 1, 1), _w(2037, 1, 1)
+
+
+def _f_carriers_for(kind, W, f, rnd):
+    c = ["p", "n", "p"]
+    if kind in F_PA_KINDS:
+        c += ["pa", "pa"]
+    if kind in ("tz", "tzutc"):
+        c.append("pf")
+    return c[rnd.randrange(len(c))]
+
+
+def _f_wall_for(kind, param, rnd, i):
+    """a wall time for an operand of this kind: fixed witnesses, probes around the zone's own transitions, random"""
+    if i % 3 == 0:
+        W = F_WALLS[rnd.randrange(len(F_WALLS))]
+    elif kind in F_NAMED_KINDS or (kind == "pz" and isinstance(param, str)):
+        trs = T.transition_probes(param, rnd, per_zone=3)
+        W = None
+        if trs:
+            tt, o_pre, o_post = trs[rnd.randrange(len(trs))]
+            pr = [w for w in T.wall_probes(tt, o_pre, o_post) if _ok_wall(w)]
+            if pr:
+                W = pr[rnd.randrange(len(pr))]
+        if W is None:
+            W = rnd.randrange(T.US_DAY * 3, T.MAX_WALL - T.US_DAY * 3)
+    elif i % 3 == 1:
+        W = rnd.randrange(_w(1970, 1, 1), _w(2030, 1, 1))
+    else:
+        W = rnd.randrange(T.US_DAY * 3, T.MAX_WALL - T.US_DAY * 3)
+    if kind in ("du", "pytz"):
+        # dateutil / pytz tables end in 2037 (no POSIX footer rule): keep their operands inside 1972..2036
+        lo, hi = F_LO, F_HI
+        if not lo <= W < hi:
+            W = rnd.randrange(lo, hi)
+    return W
+
+
+def foreign_cases(tier, seed):
+    rnd = random.Random(seed * 7919 + 11)
+    out = []
+    n_round = 6 if tier == "quick" else 60
+    i = 0
+    for rd in range(n_round):
+        for (kind, param) in F_KINDS:
+            # partner classes: a pendulum zone (pendulum value / its native), the same foreign object, the same kind as another object, another foreign kind, naive
+            for pc in range(6):
+                i += 1
+                W1 = _f_wall_for(kind, param, rnd, i)
+                f1 = rnd.randrange(2)
+                if kind == "pytz" and len(T.solutions(zoneinfo.ZoneInfo(param), W1 // T.MEG)) == 0:
+                    f1 = 0
+                c1 = _f_carriers_for(kind, W1, f1, rnd)
+                op1 = [c1, kind, param, 0, W1, 0 if kind in F_FIXED_KINDS and c1 != "p" else f1]
+                if pc in (0, 1):
+                    spec = F_PARTNERS[rnd.randrange(len(F_PARTNERS))]
+                    k2, p2, inst2 = "pz", spec, 0
+                    c2 = "p" if (pc == 0 or c1 == "n") else "n"
+                elif pc == 2:
+                    k2, p2, inst2 = kind, param, 0
+                    c2 = "n" if c1 != "n" and rnd.randrange(2) else "p"
+                elif pc == 3:
+                    k2, p2, inst2 = kind, param, 1
+                    c2 = "n" if c1 != "n" and rnd.randrange(2) else "p"
+                elif pc == 4:
+                    k2, p2 = F_KINDS[rnd.randrange(len(F_KINDS))]
+                    inst2 = rnd.randrange(2)
+                    c2 = "n" if c1 != "n" and rnd.randrange(3) == 0 else "p"
+                else:
+                    k2, p2, inst2 = "naive", None, 0
+                    c2 = "p" if c1 == "n" else ["p", "n"][rnd.randrange(2)]
+                # the second operand: the same instant rendered in its zone (+-1 us), a near value, or an unrelated one
+                mode = rnd.randrange(4)
+                W2, f2 = None, rnd.randrange(2)
+                if mode < 2 and k2 != "naive":
+                    try:
+                        U = W1 - T.off_s(T.native(W1, op1[5], f_tzobj(op1, {}, "ref"))) * T.MEG
+                        if _ok_wall(U):
+                            W2, f2 = _render(f_spec(k2, p2), U + (mode * 2 - 1) * (i % 2))
+                    except (OverflowError, ValueError):
+                        W2 = None
+                if W2 is None or not _ok_wall(W2):
+                    W2 = W1 + rnd.randrange(-2 * T.US_DAY, 2 * T.US_DAY) if mode < 3 else _f_wall_for(k2, p2, rnd, i + 1)
+                    f2 = rnd.randrange(2)
+                if k2 in ("du", "pytz") or kind in ("du", "pytz"):
+                    lo, hi = F_LO, F_HI
+                    if not (lo <= W2 < hi and lo <= W1 < hi):
+                        continue
+                if not _ok_wall(W2):
+                    continue
+                if k2 == "pytz" and len(T.solutions(zoneinfo.ZoneInfo(p2), W2 // T.MEG)) == 0:
+                    f2 = 0
+                if k2 in F_FIXED_KINDS or k2 == "naive" or (k2 == "pz" and isinstance(p2, int)):
+                    f2 = f2 if c2 in ("p", "n") else 0
+                op2 = [c2, k2, p2, inst2, W2, f2]
+                pair = [op1, op2] if i % 2 else [op2, op1]
+                stream = "dt-foreign-" + ("pendulum-zone" if pc < 2 else "same-object" if pc == 2 else "same-kind" if pc == 3 else "mixed" if pc == 4 else "naive")
+                out.append({"stream": stream, "fn": "dt_foreign", "args": pair})
+    return out
 
 
 def cases(tier, seed):
@@ -321,6 +680,8 @@ def cases(tier, seed):
         out.append({"stream": "time-unary", "fn": "time_unary", "args": list(tv) + [tz, i % 2]})
         tv2 = tvals[(i * 7 + 3) % len(tvals)]
         out.append({"stream": "time-binary", "fn": "time_binary", "args": list(tv) + list(tv2) + [i % 3]})
+    # operands carrying foreign tzinfo kinds
+    out += foreign_cases(tier, seed)
     # the generated override table against the real MRO
     for ci, c in enumerate(CLASSES):
         for ni, n in enumerate(STD):
@@ -329,7 +690,7 @@ def cases(tier, seed):
 
 
 def search_cases(seed):
-    return [c for c in cases("thorough", seed) if c["fn"] in ("dt_unary", "dt_binary", "dt_astz")][::5]
+    return [c for c in cases("thorough", seed) if c["fn"] in ("dt_unary", "dt_binary", "dt_astz")][::5] + foreign_cases("thorough", seed + 1)
 
 
 def nontrivial(c):
@@ -388,6 +749,8 @@ def impl_run(cases):
             elif fn == "dt_binary":
                 x, y = _operands(pendulum, a)
                 out.append([0, _ops(x, y), _sub(x, y), 1 if (x.tzinfo is y.tzinfo) else 0])
+            elif fn == "dt_foreign":
+                out.append(f_impl(pendulum, a))
             elif fn == "dt_astz":
                 s1, W, f, s2, kind = a
                 p = _pdt(pendulum, s1, W, f)
@@ -482,6 +845,59 @@ def _operand_enc(spec, W, f):
     return _zenc(spec, W) + [W, f]
 
 
+F_MODEL_KINDS = ("naive", "pz", "tzutc", "tz", "tzn", "zi", "user", "usert", "duo", "duu", "du")
+
+
+def _f_offset_at(op):
+    return T.off_s(T.native(op[4], op[5], f_tzobj(op, {}, "ref")))
+
+
+def _f_pkey(op):
+    """the pendulum timezone object (by cache key) that DateTime.instance() -> _safe_timezone attaches to a NATIVE operand; a pendulum operand keeps its tzinfo"""
+    carrier, kind, param, inst, W, f = op
+    if kind == "naive":
+        return None
+    if kind == "pz":
+        return param
+    if carrier != "n":
+        return ("foreign",)
+    if kind == "zi":
+        return param                                   # hasattr(tz, "key")
+    if kind in ("tzutc", "duu") or (kind == "tz" and param == 0) or (kind in ("tzn", "user") and param[1] == "UTC"):
+        return "UTC"                                   # tz.tzname(None) == "UTC"
+    if kind in ("tz", "duo"):
+        return param
+    if kind in ("tzn", "user"):
+        return param[0]
+    return _f_offset_at(op)                            # usert / du: FixedTimezone(int(tz.utcoffset(dt).total_seconds()))
+
+
+def _f_modelled(op):
+    carrier, kind, param, inst, W, f = op
+    if kind not in F_MODEL_KINDS:
+        return False                                   # key-less ZoneInfo (raises, finding keyless-zoneinfo-operand-raises), pytz: oracle only
+    if kind == "du" and not f_ref_ok(op):
+        return False
+    if carrier == "n" and kind in ("usert", "du") and len(T.solutions(zoneinfo.ZoneInfo(param), W // T.MEG)) != 1:
+        return False                                   # instance() freezes the offset of (wall, fold): a table operand becomes a fixed-offset one
+    return True
+
+
+def f_model_calls(a):
+    """dt_foreign -> the dispatch entry dt_binary of Model/DropIn.v: an operand is (is_pendulum, identity of its tzinfo object, identity of pendulum's
+    timezone object that instance() would attach, the table its tzinfo presents, wall, fold)"""
+    if not (_f_modelled(a[0]) and _f_modelled(a[1])):
+        return None
+    k1, k2 = _f_pkey(a[0]), _f_pkey(a[1])
+    pid1, pid2 = 1, (1 if (k1 == k2 and k1 is not None and k1 != ("foreign",)) else 2)
+    o1 = pid1 if a[0][1] == "pz" else 11
+    o2 = pid2 if a[1][1] == "pz" else (11 if (a[0][1] != "pz" and _f_key(a[0]) == _f_key(a[1])) else 12)
+    enc = []
+    for op, o, pid in ((a[0], o1, pid1), (a[1], o2, pid2)):
+        enc += [0 if op[0] == "n" else 1, o, pid] + _operand_enc(f_spec(op[1], op[2]), op[4], op[5])
+    return [("dt_binary", enc)]
+
+
 def model_calls(c, backend):
     fn, a = c["fn"], c["args"]
     if fn == "dt_unary":
@@ -507,6 +923,8 @@ def model_calls(c, backend):
         o1 = 11 if nb1 else 1
         o2 = 12 if nb2 else (1 if s1 == s2 and not nb1 else 2)
         return [("dt_binary", [isp1, o1, pid1] + _operand_enc(s1, W1, f1) + [isp2, o2, pid2] + _operand_enc(s2, W2, f2))]
+    if fn == "dt_foreign":
+        return f_model_calls(a)
     if fn == "dt_astz":
         s1, W, f, s2, kind = a
         try:
@@ -608,8 +1026,8 @@ def _norm_impl(c, r):
         return _proj_unary(r[1], r[3], a[0], a[1])
     if fn == "dt_timetz":
         return [0, 1 if r[1] == "Time" else 0] + r[2:]
-    if fn == "dt_binary":
-        ops, sub, same = r[1], r[2], r[3]
+    if fn in ("dt_binary", "dt_foreign"):
+        ops, sub, same = (r[1], r[2], r[3]) if fn == "dt_binary" else (r[1][0], r[1][1], r[4])
         if sub[0] == "E":
             s = [1, T.EXN.get(sub[1], 14)]
         elif sub[0] == "Interval":
@@ -664,12 +1082,88 @@ def _skip_for(spec):
     return ("tzname", "dst") if _is_fixed(spec) else ()
 
 
+F_NAMES = ["==", "!=", "<", "<=", ">", ">=", "hash-eq"]
+
+
+def f_deviations(a, r):
+    """dt_foreign: every difference between the implementation's answers and the native operands' (same fields, same tzinfo objects)."""
+    dev = []
+    P, N, info, share = r[1], r[2], r[3], r[4]
+    pend = [op[0] != "n" for op in a]
+    route_ok = True
+    for i, op in enumerate(a):
+        tn, w, fo, same_tz, o0, o1 = info[i]
+        if (tn == "DateTime") != pend[i]:
+            dev.append(f"route:type operand {i + 1} ({op[0]}) is a {tn}")
+            route_ok = False
+        if [w, fo] != [op[4], op[5]]:
+            dev.append(f"route:fields operand {i + 1} obtained by {op[0]} has fields {T.fields_of(w)} fold {fo}; the native value has {T.fields_of(op[4])} fold {op[5]}")
+            route_ok = False
+        if not same_tz and op[0] != "pf":
+            dev.append(f"astimezone:tzinfo operand {i + 1} obtained by {op[0]} does not carry the tzinfo object it was given")
+    for o, (iops, isub, iastz) in enumerate(((0, 1, 4), (2, 3, 5))):
+        lab = "x,y" if o == 0 else "y,x"
+        recv_pend = pend[o]
+        for nme, g, e in zip(F_NAMES, P[iops], N[iops]):
+            if g != e:
+                dev.append(f"op {nme} ({lab}): {g} but the native operands give {e}")
+        sub, es = P[isub], N[isub]
+        if es[0] == "E":
+            if sub != es:
+                dev.append(f"sub: ({lab}) {sub} but native raises {es[1]}")
+        elif sub[0] == "E":
+            dev.append(f"sub:raises ({lab}) {sub[1]} but the native operands give {es[1:]}")
+        elif sub[0] != "Interval":
+            dev.append(f"sub:type ({lab}) result is {sub} not an Interval")
+        elif sub[1:] != es[1:]:
+            dev.append(f"sub:value ({lab}) {sub[1:]} but native subtraction gives {es[1:]}")
+        az, ea = P[iastz], N[iastz]
+        if ea[0] == "-" or az[0] == "-":
+            if az != ea:
+                dev.append(f"astimezone: ({lab}) {az} vs {ea}")
+        elif ea[0] == "E":
+            if az != ea:
+                dev.append(f"astimezone: ({lab}) {az} but native raises {ea[1]}")
+        elif az[0] == "E":
+            dev.append(f"astimezone:raises ({lab}) {az[1]} but native gives {ea}")
+        else:
+            if az[1:4] != ea[1:4]:
+                dev.append(f"astimezone: ({lab}) {az} but native gives {ea}")
+            elif az[4] != ea[4]:
+                dev.append(f"astimezone:tzinfo ({lab}) the result's tzinfo is not the tz argument ({az})")
+            if az[0] != ("DateTime" if recv_pend else "datetime"):
+                dev.append(f"astimezone:type ({lab}) returns a {az[0]}")
+    # ordering of two aware DateTimes is the ordering of their instants
+    if a[0][1] != "naive" and a[1][1] != "naive" and route_ok:
+        U = [info[i][1] - info[i][4 + info[i][2]] * T.MEG for i in (0, 1)]
+        want = [0, 0, 1 if U[0] < U[1] else 0, 1 if U[0] <= U[1] else 0, 1 if U[0] > U[1] else 0, 1 if U[0] >= U[1] else 0]
+        for i in (2, 3, 4, 5):
+            if P[0][i] != want[i]:
+                dev.append(f"order:instant {F_NAMES[i]} gives {P[0][i]} but the instants order as {want[i]}")
+                break
+    # the in-interpreter native operands against stdlib-only ones built by the oracle
+    if route_ok:
+        R = f_reference(a)
+        if R is not None:
+            robs, roffs, rshare = R
+            if roffs != [info[0][4:6], info[1][4:6]]:
+                dev.append(f"twin:offsets the tzinfo objects answer utcoffset {[info[0][4:6], info[1][4:6]]}, the stdlib reference {roffs}")
+            elif robs != N:
+                bad = [k for k in range(6) if robs[k] != N[k]]
+                dev.append(f"twin:native the native operands inside the interpreter answer {[N[k] for k in bad]}, stdlib-only operands {[robs[k] for k in bad]}")
+            if bool(rshare) != bool(share) and "pytz" not in (a[0][1], a[1][1]) and "pf" not in (a[0][0], a[1][0]):
+                dev.append(f"harness: operands share tzinfo object = {share}, reference {rshare}")
+    return dev
+
+
 def deviations(c, r):
     """All differences between the implementation's answers and the native object's, as short strings."""
     fn, a = c["fn"], c["args"]
     dev = []
     if r[0] != 0:
         return [f"raised {r}"]
+    if fn == "dt_foreign":
+        return f_deviations(a, r)
     if fn == "dt_unary":
         spec, W, f = a
         po = [tuple(kv) for kv in r[1]]
@@ -887,9 +1381,63 @@ def _walls_skipped(spec, W):
     return isinstance(spec, str) and len(T.solutions(T.ref_zone(spec), W // T.MEG)) == 0
 
 
+def _f_gap(op):
+    """a native operand whose tzinfo names a tz database zone (key / zone attribute) on a skipped wall time: instance() -> create() shifts it"""
+    carrier, kind, param, inst, W, f = op
+    return carrier == "n" and (kind in ("zi", "pytz") or (kind == "pz" and isinstance(param, str))) and _walls_skipped(param, W)
+
+
+def f_known(a, backend, r):
+    """dt_foreign: EVERY deviation of the case must be explained by a listed finding (by call site + region); returns the first one's id."""
+    if r[0] != 0:
+        return None
+    dev = f_deviations(a, r)
+    P, N, info, share = r[1], r[2], r[3], r[4]
+    aware = a[0][1] != "naive" and a[1][1] != "naive"
+    offs = [info[i][4 + info[i][2]] for i in (0, 1)]
+    ids = []
+    for d in dev:
+        tag = d.split(" ")[0]
+        o = 1 if "(y,x)" in d else 0
+        left, right = a[o], a[1 - o]
+        fid = None
+        if tag == "order:instant" and aware and share and offs[0] != offs[1]:
+            fid = "same-zone-order-is-wall-order"
+        elif tag == "sub:value" and (aware or (a[0][1] == "naive" and a[1][1] == "naive")):
+            es = N[1 + 2 * o]
+            if aware and share and offs[0] != offs[1]:
+                fid = "sub-same-tzinfo-uses-instants"
+            elif aware and (_f_gap(a[0]) or _f_gap(a[1])):
+                fid = "sub-native-operand-in-gap-normalised"
+            elif es[0] != "E" and abs((es[1] * 86400 + es[2]) * T.MEG + es[3]) >= 2 ** 33 * T.MEG:
+                fid = "sub-length-float-roundtrip"
+        elif tag == "astimezone:tzinfo" and "(" in d.split(" ")[1] and right[1] == "zi" and left[0] != "n" and P[4 + o][0] == "DateTime" and P[4 + o][2] == 1:
+            fid = "astimezone-fold1-swaps-stdlib-tzinfo"
+        elif tag in ("astimezone:", "astimezone:tzinfo", "astimezone:raises") and "(" in d.split(" ")[1] and left[0] != "n" and right[1] in F_PY_FROMUTC \
+                and _f_key(left) != _f_key(right):
+            fid = "astimezone-python-fromutc-target"
+        elif "zif" in (a[0][1], a[1][1]):
+            nat_zif = any(op[1] == "zif" and op[0] == "n" for op in a)
+            pen_zif = any(op[1] == "zif" and op[0] != "n" for op in a)
+            if tag in ("sub:raises", "sub:"):
+                got = P[1 + 2 * o]
+                if got == ["E", "AttributeError"] and nat_zif:
+                    fid = "keyless-zoneinfo-operand-raises"
+                elif got == ["E", "TypeError"] and pen_zif and backend == "rs" and tag == "sub:raises":
+                    fid = "keyless-zoneinfo-operand-raises"
+            elif tag == "astimezone:raises" and right[1] == "zif" and left[0] != "n" and P[4 + o] == ["E", "AttributeError"] and N[4 + o][2] == 1:
+                fid = "keyless-zoneinfo-operand-raises"
+        if fid is None:
+            return None
+        ids.append(fid)
+    return ids[0] if ids else None
+
+
 def known(c, backend, r):
     """Classify by the exact set of deviations AND the input region; anything else stays a violation."""
     fn, a = c["fn"], c["args"]
+    if fn == "dt_foreign":
+        return f_known(a, backend, r)
     dev = deviations(c, r)
     kinds = {d.split(" ")[0] for d in dev}
     if fn == "dt_timetz" and kinds == {"timetz:type"}:
@@ -974,3 +1522,7 @@ LEVEL_NOTE = (LEVEL_NOTE + " The native subtraction / comparison / equality (PEP
 LEVEL_TEXT = (LEVEL_TEXT + " The native datetime rules the specification uses (aware subtraction and comparison, __eq__ with the PEP 495 exception, "
               "dt + timedelta resetting fold, replace, timedelta normalisation with its OverflowError bound) are proved equal to the translation of "
               "CPython's own pure-Python datetime source.")
+LEVEL_NOTE = (LEVEL_NOTE + " Operands carrying foreign tzinfo kinds (dt-foreign-* streams) are inside the Coq model through the existing dt_binary entry (a tzinfo is an identity + a table; "
+              "DateTime.instance() of a native operand re-attaches pendulum's object) for datetime.timezone / ZoneInfo / dateutil tzoffset,tzutc,tzfile (1972..2036, real walls) / user "
+              "tzinfo subclasses; key-less ZoneInfo.from_file, pytz and the astimezone() results of this family are ORACLE-ONLY (native twins on the same tzinfo objects); two genuine "
+              "defects found there are listed (astimezone-python-fromutc-target, keyless-zoneinfo-operand-raises).")
